@@ -1,6 +1,7 @@
 import PhyVerif.Model.C10
 import PhyVerif.Spec.C10
 import PhyVerif.Lemmas.C10
+import PhyVerif.Lemmas.C10b
 /-!
 # C10 — saved curation state survives any save/reload history
 Only property theorems + non-vacuity examples; proofs in `Lemmas/C10.lean`.
@@ -8,11 +9,13 @@ Only property theorems + non-vacuity examples; proofs in `Lemmas/C10.lean`.
 namespace PhyVerif.C10
 open PhyVerif.C18 (Cell)
 
+variable {α : Type} [Zero α]
+
 /-- For every history of saves / subset exports / close / reload, a reload shows exactly the last
 saved spike-cluster assignments. -/
-theorem clusters_last_saved (render : Cell → String) (d : Disk) (ops : List Op) :
-    (run render d ops).clusters = (absRun ⟨d.clusters, []⟩ ops).clusters :=
-  Lemmas.clusters_last_saved render d ops
+theorem clusters_last_saved (render : Cell → String) (scale : α → α) (d : Disk α) (ops : List Op) :
+    (run render scale d ops).clusters = (absRun ⟨d.clusters, []⟩ ops).clusters :=
+  Lemmas.clusters_last_saved render scale d ops
 
 /-- … and, for every metadata field ever saved, exactly the last saved mapping of that field
 (None entries dropped, ids ascending), whatever was saved before or for other fields —
@@ -21,15 +24,85 @@ that round-trips values and integers — and whatever legacy `.csv` files (any n
 also ones carrying the same field) are present: the saved `.tsv` wins. -/
 theorem metadata_last_saved (render : Cell → String) (parse : String → Cell)
     (hrt : ∀ c, parse (render c) = c) (hne : ∀ c, render c ≠ "")
-    (hid : ∀ n : Nat, parse (toString n) = .int n)
-    (csvs : List (FName × File)) (hcsv : ∀ p ∈ csvs, p.1.2 = false)   -- any legacy CSV files, any content
+    (hid : ∀ n : Nat, parse (toString n) = .int n) (scale : α → α)
+    (d : Disk α) (hcsv : ∀ p ∈ d.files, p.1.2 = false)   -- any legacy CSV files, any content
     (ops : List Op) (hown : OwnOps ops) (field : String) (vals : List (Nat × Cell))
     (hf : (absRun ⟨[], []⟩ ops).fields.lookup field = some vals)
     (hinfo : field ≠ "info")     -- `cluster_info.tsv` is deliberately ignored on load
     (hvals : vals ≠ []) :
-    fieldView parse (run render ⟨[], csvs, false⟩ ops) field =
+    fieldView parse (run render scale d ops) field =
       some (vals.map fun p => (Cell.int p.1, p.2)) :=
-  Lemmas.metadata_last_saved render parse hrt hne hid csvs hcsv ops hown field vals hf hinfo hvals
+  Lemmas.metadata_last_saved render parse hrt hne hid scale d hcsv ops hown field vals hf hinfo hvals
+
+/-- The loader, for ANY list of files in ANY visiting order: a field shows exactly what the LAST visited file that
+says anything about it says (`fileField`: a readable file other than `cluster_info.*` with a row giving the
+field a value next to a `cluster_id`); `none` when no file does. This is the rule that decides which file wins
+when a foreign TSV/CSV and a saved file carry the same field. -/
+theorem view_field_eq_last (parse : String → Cell) (visit : List (FName × File)) (field : String) :
+    (metadataViewIn parse visit).lookup field = visit.reverse.findSome? (fileField parse field) :=
+  Lemmas.view_field_eq_last parse visit field
+
+/-- "… the last saved mapping of every metadata field next to metadata found in other TSV/CSV files", widened to
+foreign files of BOTH kinds, present before or written at any point of the history (`writeFile` ops are allowed
+everywhere; only `cluster_<field>.tsv` itself must not be overwritten after the save, and the save must be the
+last of that field — `KeepsSaved`), for ANY initial directory and ANY order `order` in which the directory lists
+its files (`glob` does not specify it; the loader visits all `.csv` of that order, then all `.tsv`): a reload
+shows exactly the last saved mapping of the field, provided no OTHER `.tsv` file in the final directory says
+anything about the field (`hother`; legacy `.csv` files may — the saved `.tsv` wins because it is visited later).
+When another `.tsv` does carry the field, which of the two is shown is decided by `view_field_eq_last`: the one the
+directory order visits last — the real `glob` order; not determined by the code.
+`hvals`: a field emptied by the last save is written as a header-only file that says nothing. -/
+theorem metadata_last_saved_among_files (render : Cell → String) (parse : String → Cell)
+    (hrt : ∀ c, parse (render c) = c) (hne : ∀ c, render c ≠ "")
+    (hid : ∀ n : Nat, parse (toString n) = .int n) (scale : α → α)
+    (d : Disk α) (pre post : List Op) (field : String) (m : List (Nat × Option Cell))
+    (hkeep : KeepsSaved field post)
+    (hfield : field ≠ "cluster_id") (hinfo : field ≠ "info") (hvals : cleanMeta m ≠ [])
+    (order : List (FName × File))
+    (hperm : order.Perm (run render scale d (pre ++ .saveMeta field m :: post)).files)
+    (hother : ∀ p ∈ (run render scale d (pre ++ .saveMeta field m :: post)).files,
+      p.1.2 = true → p.1 ≠ ("cluster_" ++ field, true) → fileField parse field p = none) :
+    (metadataView parse order).lookup field =
+      some ((cleanMeta m).map fun p => (Cell.int p.1, p.2)) :=
+  Lemmas.metadata_last_saved_among_files render parse hrt hne hid scale d pre post field m hkeep hfield
+    hinfo hvals order hperm hother
+
+/-- "unchanged spike templates and times": no operation of any history writes `spike_templates.npy`,
+`spike_times.npy`, the raw data or the template files; a reload shows them as they were. -/
+theorem templates_times_unchanged (render : Cell → String) (scale : α → α) (d : Disk α) (ops : List Op) :
+    (run render scale d ops).fixed.spikeTemplates = d.fixed.spikeTemplates ∧
+    (run render scale d ops).fixed.spikeSamples = d.fixed.spikeSamples ∧
+    (run render scale d ops).fixed = d.fixed :=
+  Lemmas.templates_times_unchanged render scale d ops
+
+/-- "subset-store waveforms equal to those read from the raw data", for EVERY history (induction over the
+operations; composition with the C03 model): whatever was saved, written, exported, closed and reloaded, if a
+reload finds a subset store then every lookup of stored spikes (any order, any non-empty query channel list, the
+dataset's window length) returns, on each query channel stored for the spike, the unit factor times the
+zero-padded raw window of THAT spike — its unchanged sample in the unchanged recording — and zeros on the other
+channels; and the stored channel row of every stored spike is the first `nc` channels of its template's channel
+order, filled up with −1. In scope: datasets `load_model` accepts (`FixedOK`), a directory without a store at the
+start, selections as `SpikeSelector` returns them (`SelOK`). -/
+theorem subset_eq_raw (render : Cell → String) (scale : α → α) (nch : Nat) (d : Disk α)
+    (hfx : FixedOK nch d.fixed) (hinit : d.subset = none) (ops : List Op) (hsel : SelOK d.fixed ops)
+    (st : C03.Store α) (hst : storeView (run render scale d ops) = some st)
+    (query : List Nat) (hq : ∀ q ∈ query, q ∈ st.spikeIds) (chq : List Nat) (hchq : chq ≠ [])
+    (_hchqd : chq.Nodup) :
+    C03.getSpikeWaveforms st query chq d.fixed.nsw =
+      some (query.map fun q =>
+        C03.lookupSpec scale d.fixed.raw (d.fixed.spikeSamples.getD q 0) d.fixed.nsw
+          (st.spikeChannels.getD (st.spikeIds.idxOf q) []) chq) ∧
+    ∃ nc, 0 < nc ∧ st.spikeChannels = st.spikeIds.map fun i =>
+      C03.templateNChannels true (d.fixed.orders.getD (d.fixed.spikeTemplates.getD i 0) []) nc :=
+  Lemmas.subset_eq_raw render scale nch d hfx hinit ops hsel st hst query hq chq hchq
+
+/-- … and once the subset has been exported anywhere in the history, every later reload does find a store (the
+written files load as an array of the declared shape). -/
+theorem subset_present (render : Cell → String) (scale : α → α) (nch : Nat) (d : Disk α)
+    (hfx : FixedOK nch d.fixed) (hinit : d.subset = none) (a b : List Op) (sel : List Nat) (maxN : Nat)
+    (hsel : SelOK d.fixed (a ++ .saveSubset sel maxN :: b)) :
+    (storeView (run render scale d (a ++ .saveSubset sel maxN :: b))).isSome :=
+  Lemmas.subset_present render scale nch d hfx hinit a b sel maxN hsel
 
 /-- Malformed or empty metadata files never prevent loading and never change what is shown for
 the other files: an unreadable file contributes nothing. -/
@@ -46,28 +119,69 @@ theorem cluster_info_excluded (parse : String → Cell) (files : List (FName × 
 
 /-- Saving metadata, exporting the subset, closing and reloading never touch the assignments or
 any other file (frame). -/
-theorem step_frame (render : Cell → String) (d : Disk) (op : Op) (name : FName)
+theorem step_frame (render : Cell → String) (scale : α → α) (d : Disk α) (op : Op) (name : FName)
     (hs : match op with
       | .saveMeta field _ => name ≠ ("cluster_" ++ field, true)
       | .writeFile s _ => name ≠ s
       | _ => True) :
-    (step render d op).files.lookup name = d.files.lookup name :=
-  Lemmas.step_frame render d op name hs
+    (step render scale d op).files.lookup name = d.files.lookup name :=
+  Lemmas.step_frame render scale d op name hs
 
-/-! Non-vacuity -/
+/-! Non-vacuity (cells of the recording are integers) -/
+-- fixtures `exFixed` (4 samples × 3 channels, 4 spikes of templates 1,0,1,0) and `exRender`: `Lemmas/C10b.lean`
 example :
-    let render : Cell → String := fun c => match c with | .int i => toString i | .float t => s!"F{t}" | .text s => s
-    (run render ⟨[0, 1], [], false⟩
+    (run exRender (fun x => 2 * x) ⟨[0, 1], [], none, exFixed⟩
       [.saveMeta "group" [(3, some (.text "good")), (1, some (.text "mua")), (2, none)],
        .saveClusters [1, 1], .reload, .saveMeta "group" [(1, some (.text "noise"))], .close, .reload]).files =
       [(("cluster_group", true), .table ["cluster_id", "group"] [["1", "noise"]])] := by decide
 -- a legacy CSV carrying the same field does not hide the saved mapping
 example :
-    let render : Cell → String := fun c => match c with | .int i => toString i | .float t => s!"F{t}" | .text s => s
     let parse : String → Cell := fun s => if s == "1" then .int 1 else .text s
-    fieldView parse (run render ⟨[], [(("cluster_groups", false), .table ["cluster_id", "group"] [["1", "unsorted"]])], false⟩
+    fieldView parse (run exRender (fun x => x)
+      ⟨[], [(("cluster_groups", false), .table ["cluster_id", "group"] [["1", "unsorted"]])], none, exFixed⟩
       [.saveMeta "group" [(1, some (.text "good"))]]) "group" = some [(.int 1, .text "good")] := by decide
 example : cleanMeta [(3, some (.int 5)), (1, some (.int 7)), (3, none), (2, some (.int 1))] =
     [(1, .int 7), (2, .int 1)] := by decide
+-- a foreign TSV with the same field, written during the history: the directory order decides
+example :
+    let parse : String → Cell := fun s => if s == "1" then .int 1 else .text s
+    let foreign : FName × File := (("zz", true), .table ["cluster_id", "group"] [["1", "theirs"]])
+    let saved : FName × File := (("cluster_group", true), .table ["cluster_id", "group"] [["1", "ours"]])
+    (run exRender (fun x => x) ⟨[], [], none, exFixed⟩
+        [.writeFile foreign.1 foreign.2, .saveMeta "group" [(1, some (.text "ours"))]]).files = [foreign, saved] ∧
+    (metadataViewIn parse [foreign, saved]).lookup "group" = some [(.int 1, .text "ours")] ∧
+    (metadataViewIn parse [saved, foreign]).lookup "group" = some [(.int 1, .text "theirs")] ∧
+    fileField parse "group" foreign = some [(.int 1, .text "theirs")] ∧
+    fileField parse "quality" foreign = none := by decide
+-- a repeated `cluster_id` column: the last non-empty cell is the id (dict semantics of read_tsv)
+example :
+    let parse : String → Cell := fun s => if s == "1" then .int 1 else if s == "2" then .int 2 else .text s
+    loadMetadata parse (.table ["cluster_id", "zz", "cluster_id"] [["1", "A", "2"], ["1", "B", ""]]) =
+      some [("zz", [(.int 2, .text "A"), (.int 1, .text "B")])] := by decide
+-- the subset store after a history with an export (factor 2, spikes 1 and 2 selected, width max(0 or 2, 2) = 2)
+example : KeepsSaved "group" [.saveSubset [1, 2] 0, .writeFile ("zz", true) .unreadable, .saveMeta "quality" [], .reload] := by
+  intro op hop
+  simp only [List.mem_cons, List.mem_nil_iff, or_false] at hop
+  rcases hop with rfl | rfl | rfl | rfl <;> simp
+example :
+    (storeView (run exRender (fun x => 2 * x) ⟨[0, 1, 0, 1], [], none, exFixed⟩
+      [.saveSubset [1, 2] 0, .saveClusters [3, 3, 3, 3], .close, .reload])).bind
+      (fun st => C03.getSpikeWaveforms st [2, 1] [1, 2] 2) =
+    some [[[16, 0], [22, 0]], [[0, 6], [0, 12]]] := by decide
+example : PhyVerif.C16.intervalsTile exFixed.raw.length exFixed.chunks = true := by decide
+-- the hypotheses of `subset_eq_raw` hold for that dataset and history
+example : FixedOK 3 exFixed :=
+  { rect := by simp [C03.Rect, exFixed], tile := by decide, sorted := by decide, inrange := by decide,
+    tlen := by decide, tbound := by decide,
+    ord := by
+      intro o ho
+      simp only [exFixed, List.mem_cons, List.mem_nil_iff, or_false] at ho
+      rcases ho with rfl | rfl <;> intro c hc <;>
+        simp only [List.mem_cons, List.mem_nil_iff, or_false] at hc <;> omega,
+    nsw := by decide, closest := by decide }
+example : SelOK exFixed [.saveSubset [1, 2] 0, .saveClusters [3, 3, 3, 3], .close, .reload] := by
+  intro op hop
+  simp only [List.mem_cons, List.mem_nil_iff, or_false] at hop
+  rcases hop with rfl | rfl | rfl | rfl <;> simp [exFixed]
 
 end PhyVerif.C10
